@@ -15,6 +15,9 @@ namespace c18
         void* p = nullptr;
         bool threw = false;
         bool bad_alloc = false; // the exception was std::bad_alloc (or derived)
+        // xsimd::is_aligned<A>(p) asked by the caller directly on allocate's result, in the caller's own translation unit and inlining context
+        // (bit 0: 16-byte architecture, bit 1: 32-byte, bit 2: 64-byte); -1 = not evaluated
+        int is_aligned_seen = -1;
     };
 
     enum VecStep
